@@ -71,6 +71,12 @@ Pool == <<
   \* comparing them by name gives the same answer on both routes
   Destruct(<<"sp", "sq">>, TupE(<<StructE(<< <<"v", Hide(WMulti(<<WInt, WFloat>>), I(1))>> >>), StructE(<< <<"v", I(1)>> >>)>>)),
   Set("se", TupE(<<Bin("==", V("sp"), V("sq")), Bin("!=", V("sp"), V("sq"))>>)),
+  \* a parameter named like a struct the host interpreter already holds means the parameter (also when the declaration and
+  \* its first use arrive in one input)
+  Set("ps", StructE(<< <<"a", I(1)>> >>)),
+  Set("rp", Block(<<FnDecl("getp", <<P("ps", WStruct(<< <<"a", WInt>> >>))>>, WInt, <<Ret(Field(V("ps"), "a"))>>),
+                    Set("ps", StructE(<< <<"a", I(9)>> >>)),
+                    Bin("+", CallE(V("getp"), <<StructE(<< <<"a", I(5)>> >>)>>), Field(V("ps"), "a"))>>)),
   \* a loop body that reads x and later declares its own x: every round — also after `continue' — starts afresh
   Set("lv", Block(<<Set("acc", MutE(WInt, I(0))), Set("k", MutE(WInt, I(0))),
                    Loop(Block(<<Asg("+=", V("k"), I(1)), If1(Bin(">", Deref(V("k")), I(3)), Break),
